@@ -218,6 +218,11 @@ class C17(core.Check):
             b'10 A=00009:B=010:C=0256', b'99999 X', b'6552 9', b'10 &', b'10 &O', b'10 &h', b'10 &7 7',
         ]
         out = [{'k': 'text', 'syn': i % 3, 'b': list(bytearray(t))} for i, t in enumerate(texts)]
+        ci_texts = [b'10 X=1 else X=2', b'10 IF A THEN X=1 else X=2', b'20 PRINT 1 eqv 2', b'30 print 2 Eqv 3:?1 eLSE',
+                    b'40 for i=1 to 10 step 2', b'50 if x=1.5 then 10 else 20', b'60 a=1 and 2 or 3 xor 4 imp 5 mod 6',
+                    b'70 A=1e5:b=1d5:c=&hff:d=&o17:e=1E+5else', b'80 go to 10:go sub 20', b'90 x=3 else y=4 eqv 5',
+                    b'100 PRINT 7else 8', b'110 print 7eqv 8', b'120 on x gosub 10,20 else']
+        out += [{'k': 'text', 'syn': i % 3, 'b': list(bytearray(t)), 'ci': True} for i, t in enumerate(ci_texts)]
         H = b'\0\xc0\xde\x0a\0'
         toks = [b'\x1d\1\2\3', b'\x1d\1\2', b'\x1d\1', b'\x1d', b'\x1f\1\2\3\4', b'\x1f\1\2\3\4\5', b'\x0b\1',
                 b'\x0c', b'\x0f', b'\x0e\1', b'\x1c\xff\xff', b'\x1b', b'\x7f', b'\xff', b'\xff\x81', b'\xa1',
@@ -402,7 +407,10 @@ class C17(core.Check):
             if rng.random() < 0.6:
                 text = b'%d' % rng.choice([0, 7, 10, 6552, 6553, 65529]) + rng.choice([b'', b' ', b'  ']) + text
             hist['text_garbage'] += 1
-        return {'k': 'text', 'syn': syn, 'b': list(bytearray(text[:255]))}
+        c = {'k': 'text', 'syn': syn, 'b': list(bytearray(text[:255]))}
+        if r < 0.7 and 0 not in c['b'] and 13 not in c['b']:
+            c['ci'] = True        # generated program text: subject to the capitalisation clause of the oracle
+        return c
 
     def _gen_tokens(self, rng, hist):
         syn = rng.randrange(3)
@@ -495,9 +503,62 @@ class C17(core.Check):
             d['b'] = c
             yield d
 
+    @staticmethod
+    def _recase(text, mode, rng=None):
+        """re-spell `text` in upper / lower / random capitalisation everywhere outside string literals, REM / '
+        tails and DATA tails (conservatively: from the first REM, ' or DATA outside a literal to the end)."""
+        b = bytearray(text)
+        up = bytes(b).upper()
+        out = bytearray()
+        instr = False
+        i = 0
+        while i < len(b):
+            ch = b[i]
+            if ch == 34:
+                instr = not instr
+            if not instr and (ch == 39 or up[i:i + 3] == b'REM' or up[i:i + 4] == b'DATA'):
+                # the keyword itself may still change case, its tail may not
+                n = 0 if ch == 39 else (3 if up[i:i + 3] == b'REM' else 4)
+                head = bytes(b[i:i + n])
+                head = head.upper() if mode == 'upper' else head.lower() if mode == 'lower' else bytes(
+                    bytearray(c ^ 32 if rng.random() < 0.5 and (65 <= c <= 90 or 97 <= c <= 122) else c
+                              for c in bytearray(head)))
+                return bytes(out) + head + bytes(b[i + n:])
+            c = bytes(bytearray([ch]))
+            if not instr:
+                if mode == 'upper':
+                    c = c.upper()
+                elif mode == 'lower':
+                    c = c.lower()
+                elif rng.random() < 0.5:
+                    c = c.swapcase()
+            out += c
+            i += 1
+        return bytes(out)
+
+    def _case_oracle(self, case):
+        """keywords are recognised case-insensitively: the line in lower / upper / random capitalisation of
+        everything outside string literals, REM/' tails and DATA tails tokenises like its upper-case spelling."""
+        syn = case['syn']
+        x = bytes(bytearray(case['b']))
+        ref = self._tokenise(syn, self._recase(x, 'upper'))
+        rng = random.Random(core.sha(case))
+        for mode in ('asis', 'lower', 'mixed', 'mixed'):
+            v = x if mode == 'asis' else self._recase(x, mode, rng)
+            got = self._tokenise(syn, v)
+            if got != ref:
+                return 'capitalisation changes the tokens: %r tokenises differently from %r' % (
+                    v, self._recase(x, 'upper'))
+        return None
+
     def oracle(self, case, out):
         """direct reading of the property on the implementation (no Coq model involved)."""
         r = self._run(case)
+        if case['k'] == 'itext' or (case['k'] == 'text' and case.get('ci')):
+            if case['b']:
+                why = self._case_oracle(case)
+                if why:
+                    return why
         if case['k'] == 'items':
             # a line of the canonical grammar lists as text that re-enters as the identical tokenised line
             if r['text'] is None:
